@@ -53,3 +53,6 @@ META = {
                "formula oracles, exhaustive small spaces + random cases",
   "soft_s": {"quick": 20, "thorough": 200},
 }
+
+# EXTENSION families added after the seeded-change rounds
+META["rule"] += (" Added after the seeded-change rounds: " '(c20_x) one tool object (maverage.X(size), amdf(lag,size), accumulate.z, envelope.abs) applied to two signals whose outputs are consumed interleaved' ".")
